@@ -8,7 +8,9 @@ import time
 
 VERIF = os.path.dirname(os.path.dirname(os.path.abspath(__file__)))
 COQ = os.path.join(VERIF, "coq")
-REPO = "/repo"
+# VERIF_DEV_REPO is a development aid only (tools/seedtest.py detect-par runs a frozen copy of
+# /verif against patched scratch copies of the repository); the registered commands never set it
+REPO = os.environ.get("VERIF_DEV_REPO", "/repo")
 SCRATCH = os.environ.get("VERIF_TMP", "/root/scratch")
 
 FORBIDDEN = re.compile(r"\b(Admitted|admit|Axiom|Axioms|Parameter|Parameters|Conjecture|"
